@@ -147,7 +147,7 @@ def observe_validate(real, v_real):
     from d42.validation import Formatter, format_result
     from d42.validation import errors as E
     ev = {"exc": "", "nerrs": 0, "eq": True, "rep": True, "errs": [], "facts": [],
-          "vof": "true", "vof_lines": 0, "fmt_lines": 0}
+          "vof": "true", "vof_lines": 0, "fmt_lines": 0, "srep": True, "serrs": [], "slocated": [], "sexc": ""}
     try:
         result = d42.validate(real, v_real)
         errors = result.get_errors()
@@ -190,6 +190,28 @@ def observe_validate(real, v_real):
         ev["facts"].append(fact)
     if not ev["rep"]:
         ev["errs"] = []
+    # the validator substitution uses (same error classes, its own visit_list / visit_dict)
+    ev["srep"] = True
+    ev["serrs"] = []
+    ev["slocated"] = []
+    ev["sexc"] = ""
+    try:
+        from d42.substitution import SubstitutorValidator
+        sres = real.__accept__(SubstitutorValidator(), value=v_real)
+        for err in sres.get_errors():
+            try:
+                ev["serrs"].append(am.a_error(err, v_real))
+            except am.Unrepresentable:
+                ev["srep"] = False
+            try:
+                got = th.get(v_real, err.path) if len(err.path) else v_real
+                ev["slocated"].append(got is err.actual_value)
+            except Exception:
+                ev["slocated"].append(False)
+    except Exception as e:
+        ev["sexc"] = type(e).__name__
+    if not ev["srep"]:
+        ev["serrs"] = []
     try:
         r = d42.validate_or_fail(real, v_real)
         ev["vof"] = "true" if r is True else "returned_other"
